@@ -247,7 +247,7 @@ PROPS = {
         "module": "HctlProofs.Props.C16",
         "extra_modules": ["HctlProofs.Lemmas.ArchiveCtx"],
         "theorems": ["Hctl.C16.bundle_roundtrip", "Hctl.C16.bdd_entry_reloads", "Hctl.C16.nonbdd_ignored",
-                     "Hctl.C16.lines_unlines", "Hctl.C16.formulae_lines",
+                     "Hctl.C16.lines_unlines", "Hctl.C16.formulae_lines", "Hctl.C16.oneLine_ok", "Hctl.C16.oneLine_id",
                      "Hctl.C16.entries_length", "Hctl.C16.reloaded_context_same_effect",
                      "Hctl.C16.reloaded_context_same_effect_tool"],
         "ks": ["k8"],
